@@ -40,6 +40,13 @@ def _install():
         LAST['paths'] = (options.stats or {}).get('num_paths', 0)
         return res
     core.analyze_calltree = calltree
+    # VERIF_SEED reseeds CrossHair's (otherwise fixed-seed) path chooser: it changes which
+    # counterexample is met first, never an exhaustive verdict
+    seed = int(os.environ.get('VERIF_SEED') or 0)
+    if seed:
+        import random
+        import crosshair.statespace as ss
+        ss.newrandom = lambda: random.Random(1801243388510242075 ^ (seed * 0x9E3779B97F4A7C15))
     _installed = True
 
 
